@@ -120,7 +120,7 @@ func TestVerif_C03(t *testing.T) {
 			// unknown datapath state (violation, abandoned history, or a rejected request that may have been applied partially)
 			a.stop(vStopWatchdog)
 			a = nil
-			if res.nViol() > 400 {
+			if res.giveUp(400) {
 				break
 			}
 		}
@@ -130,7 +130,69 @@ func TestVerif_C03(t *testing.T) {
 		a.stop(vStopWatchdog)
 		a = nil
 	}
+	c03Overlap(res)
 	c03Restart(t, res)
+}
+
+// c03Overlap: two downlink PDRs of one session on the same remote prefix and protocol whose port ranges overlap (0-2 at
+// precedence 200, then 1-1 at precedence 1789 created by a modification). Kept out of the main histories (envelope) because
+// of a recorded finding; this family keeps the finding visible and notices when it is gone.
+func c03Overlap(res *vResult) {
+	for k := 0; k < vEnv.pick(4, 40); k++ {
+		idx := 5000000 + k
+		if !vEnv.mine(idx) {
+			continue
+		}
+		res.begin(idx, fmt.Sprintf("c03 overlapping port ranges %d", k), nil)
+		o := vDefaultOpts(false, vEnv.addr(1))
+		a, err := vStartAgent(o)
+		if err != nil {
+			res.inconclusive("agent start: " + err.Error())
+			return
+		}
+		func() {
+			defer a.stop(vStopWatchdog)
+			p, err := vNewPeer(vEnv.addr(2), o.N4)
+			if err != nil {
+				return
+			}
+			defer p.close()
+			if c01Request(p, p.assocSetup(1), 1) == nil {
+				res.inconclusive("association setup unanswered")
+				return
+			}
+			lo := k % 3 // 0-2 / 1-3 / 2-4 with the single port lo+1
+			est := c10Session(2, 0x7700+uint64(k), 100+k)
+			wide := fmt.Sprintf("permit out udp from any %d-%d to assigned", lo, lo+2)
+			est.PDRs[0].SDF, est.PDRs[1].SDF = wide, wide
+			est.PDRs[1].Prec = 200
+			m := c01Request(p, p.establish(est), 2)
+			if m == nil || vDecodeReply(m).Cause != 1 {
+				res.inconclusive("establishment of the overlap scenario rejected")
+				return
+			}
+			up := c01UPSEID(m)
+			np := est.PDRs[1]
+			np.ID, np.Prec, np.FAR, np.SDF = 4, 1789, 2, fmt.Sprintf("permit out udp from any %d-%d to assigned", lo+1, lo+1)
+			m = c01Request(p, p.modify(vModSpec{Seq: 3, SEID: up, CrPDR: []vPDRSpec{np}}), 3)
+			if m == nil || vDecodeReply(m).Cause != 1 {
+				res.note("overlap scenario: the modification creating the narrower PDR was not accepted")
+				return
+			}
+			res.eval(1)
+			res.event("overlapping_range_scenarios", 1)
+			// who owns the downlink entry for remote port lo+1? The PDR with precedence 200 must keep it.
+			owner := uint64(0)
+			for _, e := range a.bess.snapshot().PDR {
+				if e.Fseid == up && e.Values[0] == uint64(core) && e.Masks[5] == 0xFFFF && e.Values[5] == uint64(lo+1) {
+					owner = uint64(e.PdrID)
+				}
+			}
+			if owner != 2 {
+				res.violate("C03.R4", "overlapping-port-ranges-share-an-entry", fmt.Sprintf("downlink PDR 2 (precedence 200, remote ports %d-%d) and PDR 4 (precedence 1789, remote port %d, created later): the wildcard entry for remote port %d belongs to PDR %d; packets from that port are classified to the lower-priority rule", lo, lo+2, lo+1, lo+1, owner), nil)
+			}
+		}()
+	}
 }
 
 // c03Restart: crash points. The agent is "killed" after the response to request i, or when the j-th
